@@ -963,6 +963,66 @@ def prepared_cases(rng, n):
 
 
 
+def reload_cases(rng, n):
+    """the files, not an earlier load, decide what load_tracks returns: tracks with a segmentation are saved, loaded,
+    the loaded copy is edited WITHOUT saving (a node deleted: its pixels are erased in place), and the directory is
+    loaded again - the second load must equal what was written (nodes, edges, label array bit for bit) and must not
+    share its array with the first; then the edited copy is saved over the directory and a third load must equal it.
+    Yields (description, complaint or None)."""
+    import shutil
+    import tempfile
+
+    import networkx as nx
+    from funtracks.data_model import SolutionTracks
+    from funtracks.import_export.internal_format import load_tracks, save_tracks
+    from funtracks.user_actions import UserDeleteNode
+
+    root = Path(tempfile.mkdtemp(prefix="funverif."))
+    try:
+        for k in range(n):
+            T = rng.randint(3, 4)
+            seg = np.zeros((T, 8, 8), dtype=rng.choice([np.uint16, np.int64]))
+            ids = rng.sample(range(1, 50), T + 1)
+            g = nx.DiGraph()
+            for tm in range(T):
+                seg[tm, 1:3, 1 + tm:4 + tm] = ids[tm]
+                g.add_node(ids[tm], time=tm)
+                if tm:
+                    g.add_edge(ids[tm - 1], ids[tm])
+            seg[T - 1, 5:7, 2:5] = ids[T]
+            g.add_node(ids[T], time=T - 1)
+            g.add_edge(ids[T - 2], ids[T])
+            desc = {"case": k, "nodes": {int(i_): int(g.nodes[i_]["time"]) for i_ in ids}, "edges": [list(e) for e in g.edges]}
+            try:
+                tr = SolutionTracks(g, segmentation=seg, ndim=3)
+                d = root / ("r%d" % k)
+                save_tracks(tr, d)
+                written = np.array(tr.segmentation)
+                first = load_tracks(d, solution=True)
+                victim = rng.choice([ids[T], ids[T - 1], ids[0]])
+                UserDeleteNode(first, victim)
+                second = load_tracks(d, solution=True)
+                bad = None
+                if sorted(second.graph.nodes) != sorted(tr.graph.nodes) or sorted(second.graph.edges) != sorted(tr.graph.edges):
+                    bad = "second load: nodes / edges %s %s differ from what was written" % (sorted(second.graph.nodes), sorted(second.graph.edges))
+                elif not np.array_equal(np.asarray(second.segmentation), written):
+                    bad = "second load after an unsaved edit of the first loaded copy (node %d deleted): label array differs from the written one at %d pixels" % (
+                        victim, int((np.asarray(second.segmentation) != written).sum()))
+                elif np.shares_memory(np.asarray(second.segmentation), np.asarray(first.segmentation)):
+                    bad = "two loads of one directory share their label array"
+                else:
+                    save_tracks(first, d)
+                    third = load_tracks(d, solution=True)
+                    if sorted(third.graph.nodes) != sorted(first.graph.nodes) or not np.array_equal(np.asarray(third.segmentation), np.asarray(first.segmentation)):
+                        bad = "third load after saving the edited copy over the directory differs from the edited copy"
+                shutil.rmtree(d, ignore_errors=True)
+                yield desc, bad
+            except Exception as e:  # noqa: BLE001
+                yield desc, "save / load / edit / load raised %s: %s" % (type(e).__name__, str(e)[:160])
+    finally:
+        shutil.rmtree(root, ignore_errors=True)
+
+
 def run(ctx):
     n_edit, n_fresh, n_tid = (40, 16, 40) if ctx.quick() else (260, 100, 400)
     n_zero = 8 if ctx.quick() else 40
@@ -988,6 +1048,11 @@ def run(ctx):
         stats["prepared_array_positions"] = stats.get("prepared_array_positions", 0) + desc.get("added_with_array_position", 0)
         if bad:
             violations.append({"what": "application-style construction: " + bad, "input": desc, "signature": "C14:prepared"})
+    for desc, bad in reload_cases(ctx.rng, 12 if ctx.quick() else 120):
+        evals += 1
+        stats["reload_cases"] = stats.get("reload_cases", 0) + 1
+        if bad:
+            violations.append({"what": "internal format, repeated load: " + bad, "input": desc, "signature": "C14:reload"})
     for label, line, impl in track_id_cases(ctx.rng, n_tid):
         jobs.append(({"kind": "track-id-case"}, label, line, impl))
         evals += 1
@@ -1007,7 +1072,7 @@ def run(ctx):
             divergences.append({"what": "%s: %s" % (label, err), "input": dict(ident, line=line[:1500]),
                                 "impl": "(see what)" if callable(want) else want[:1500], "model": mo[:1500]})
     return {"evaluations": evals, "distinct_nontrivial": len(distinct),
-            "rule": "tracks objects from (i) editing sessions E.run_scenario(seed, i): random forest over 1-8 ids from 1..39, 2D/3D, with (5x5 / 3x3x3 masks) or without segmentation, single-key or per-axis positions, scale None/ones/anisotropic, optional iou / ellipse / perimeter / circularity features and custom attributes, then 4-22 random user actions (add/delete node/edge, swap, attribute updates, painting, undo, redo); (ii) fresh construction: 2-9 ids from 1..199, 3-6 frames, forests with divisions and skip edges and isolated nodes, dyadic (70%) or non-dyadic positions, box or C-shaped masks with several integer dtypes, time key 'time' or 't', track/lineage ids either computed or supplied as arbitrary distinct values (60%), registered custom features (int c1, float score) and an unregistered partial attribute c2; (iii) id-0 construction without segmentation: node id 0 as a dividing root / in the middle of a linear track / as a leaf / isolated (cycled), other ids drawn from {1, 2, 7, 999, 1000003, 2^31+5, 2^40+1} and 3..499, a second lineage with a skip edge, single-key or per-axis positions, 2D/3D. (iv) application-style construction (prepared_cases): a prepared FeatureDict whose Position got its axis names as a tuple or as a list the caller extends afterwards, nodes added with numpy-row positions, read back from the internal format (registry compared with ==) and from CSV with display names. Every object is written and re-read in CSV, GEFF and the internal format (evaluation = one object x one format) and the model is run on the same data (X/I/S/C/G/F/T lines); plus direct activate-vs-recompute cases (K). Non-trivial = at least 2 nodes and 1 edge; distinct = distinct (format, nodes, edges, times, positions, track ids).",
+            "rule": "tracks objects from (i) editing sessions E.run_scenario(seed, i): random forest over 1-8 ids from 1..39, 2D/3D, with (5x5 / 3x3x3 masks) or without segmentation, single-key or per-axis positions, scale None/ones/anisotropic, optional iou / ellipse / perimeter / circularity features and custom attributes, then 4-22 random user actions (add/delete node/edge, swap, attribute updates, painting, undo, redo); (ii) fresh construction: 2-9 ids from 1..199, 3-6 frames, forests with divisions and skip edges and isolated nodes, dyadic (70%) or non-dyadic positions, box or C-shaped masks with several integer dtypes, time key 'time' or 't', track/lineage ids either computed or supplied as arbitrary distinct values (60%), registered custom features (int c1, float score) and an unregistered partial attribute c2; (iii) id-0 construction without segmentation: node id 0 as a dividing root / in the middle of a linear track / as a leaf / isolated (cycled), other ids drawn from {1, 2, 7, 999, 1000003, 2^31+5, 2^40+1} and 3..499, a second lineage with a skip edge, single-key or per-axis positions, 2D/3D. (iv) application-style construction (prepared_cases): a prepared FeatureDict whose Position got its axis names as a tuple or as a list the caller extends afterwards, nodes added with numpy-row positions, read back from the internal format (registry compared with ==) and from CSV with display names. (v) repeated loads (reload_cases): save, load, edit the loaded copy without saving, load again (must equal the files, no shared array), save over, load. Every object is written and re-read in CSV, GEFF and the internal format (evaluation = one object x one format) and the model is run on the same data (X/I/S/C/G/F/T lines); plus direct activate-vs-recompute cases (K). Non-trivial = at least 2 nodes and 1 edge; distinct = distinct (format, nodes, edges, times, positions, track ids).",
             "samples": samples, "divergences": divergences, "violations": violations, "stats": stats}
 
 
